@@ -522,3 +522,56 @@ register(Obligation(name="C03.L_K.tables_follow_the_kpoints_at_every_build", pro
                     run=NativeCases(nat_rebuilt_after_kpoint_change, "after build(); change of the k-points; build(): L, K and the cut-off masks belong to the new k-points"),
                     functions=["eminus.atoms:Atoms.build", "eminus.atoms:Atoms._sample_unit_cell", "eminus.operators:L", "eminus.operators:K"],
                     doc="BOUNDED: Laplacian / preconditioner / cut-off masks of a re-built Atoms object belong to its current k-points (trs, new shift, new mesh)"))
+
+
+def nat_transforms_torch(rng):
+    """The transforms with the Torch array backend (the package default when torch is importable): state matrices with several columns, spin stacks
+    and k-point lists, full and restricted basis: mutual inverses, mutual adjoints, column-by-column action."""
+    import eminus
+    from eminus import Atoms
+    from eminus import backend as xp
+
+    eminus.config.backend = "torch"
+    if eminus.config.backend != "torch":
+        raise RuntimeError("harness: the torch backend is not available")
+    eminus.config.verbose = "critical"
+    bad = []
+    try:
+        at = Atoms("He", [[0.1, 0.2, 0.3]], ecut=3, a=[[4.0, 0.3, 0.1], [0.2, 4.5, 0.4], [0.5, 0.1, 5.0]], unrestricted=True)
+        at.s = [7, 6, 5]
+        at.set_k([[0.0, 0.0, 0.0], [0.21, -0.13, 0.17]], [0.4, 0.6])
+        to = lambda x: np.asarray(xp.to_np(x))  # noqa: E731
+
+        def vd(a, b):
+            return np.vdot(to(a), to(b))
+
+        for shape_name, mk in (("matrix (3 columns)", lambda n: rnd(rng, n, 3)), ("spin stack (2 x 3 columns)", lambda n: rnd(rng, 2, n, 3)), ("vector", lambda n: rnd(rng, n))):
+            err = {}
+            f_np = mk(at.Ns)
+            f = xp.asarray(f_np)
+            err["I(J(f)) vs f"] = float(np.abs(to(at.I(at.J(f))) - f_np).max())
+            err["J(I(f)) vs f"] = float(np.abs(to(at.J(at.I(f))) - f_np).max())
+            g = xp.asarray(mk(at.Ns))
+            err["<g, I f> vs <Idag g, f>"] = abs(vd(g, at.I(f)) - vd(at.Idag(g, full=True), f))
+            err["<g, J f> vs <Jdag g, f>"] = abs(vd(g, at.J(f)) - vd(at.Jdag(g), f))
+            for ik in range(2):
+                npw = len(at.Gk2c[ik])
+                w_np = mk(npw)
+                w = xp.asarray(w_np)
+                err[f"J(I(W, ik), ik, full=False) vs W (k-point {ik})"] = float(np.abs(to(at.J(at.I(w, ik), ik, full=False)) - w_np).max())
+                err[f"<f, I W> vs <Idag f, W> (k-point {ik})"] = abs(vd(g, at.I(w, ik)) - vd(at.Idag(g, ik), w))
+                if w_np.ndim >= 2:
+                    col = xp.asarray(np.ascontiguousarray(w_np[..., :1]))
+                    err[f"first column of I(W) vs I(first column) (k-point {ik})"] = float(np.abs(to(at.I(w, ik))[..., :1] - to(at.I(col, ik))).max())
+            for k, v in err.items():
+                if not v <= 1e-9:
+                    bad.append(dict(input=shape_name, clause=k, error=float(v)))
+    finally:
+        eminus.config.backend = "numpy"
+    return bad
+
+
+register(Obligation(name="C03.transforms.torch_backend", prop=PROP, engine="B", bounded=True,
+                    run=NativeCases(nat_transforms_torch, "transforms with the Torch backend (matrices, spin stacks, vectors; full and restricted basis): inverses, adjoints, column-wise action"),
+                    functions=["eminus.operators:I", "eminus.operators:J", "eminus.operators:Idag", "eminus.operators:Jdag", "eminus.backend:fftn", "eminus.backend:ifftn"],
+                    doc="BOUNDED: inverse / adjoint / column-wise laws of the transforms under the Torch backend (the property under the package's default backend, not a backend comparison)"))
